@@ -74,6 +74,18 @@ class CallMixin(object):
                 for sf in side:
                     self.assumes.append(z3.ForAll([k], sf))
                 return V(mkB(z3.ForAll([k], inner)), parse_spec('bool'))
+            if n == 'is_fresh':
+                # the object was allocated during this call (so no object reachable from the parameters is the same)
+                xv = self.as_v(st, self.eval(st, e.args[0]))
+                return V(mkB(And(Val.is_R(xv.t), Val.r(xv.t) > self.alloc0)), parse_spec('bool'))
+            if n == 'same_list':
+                # sufficient condition for list equality: same length and the same element sequence (as element arrays)
+                la, lb = self.eval(st, e.args[0]), self.eval(st, e.args[1])
+                la, lb = self.as_v(st, la), self.as_v(st, lb)
+                ra, rb = Val.r(la.t), Val.r(lb.t)
+                ea, eb = z3.Select(self.harr(st, '$ELEM'), ra), z3.Select(self.harr(st, '$ELEM'), rb)
+                return V(mkB(And(Val.is_R(la.t), Val.is_R(lb.t), self.list_len(st, ra) == self.list_len(st, rb),
+                                 self.list_off(st, ra) == self.list_off(st, rb), ea == eb)), parse_spec('bool'))
             if n == 'all_distinct':
                 lv = self.eval(st, e.args[0])
                 r = Val.r(lv.t)
@@ -385,14 +397,31 @@ class CallMixin(object):
         if cls in (str, int, bool, list, set, dict, tuple, len, sorted, enumerate, zip, range, reversed, map, filter):
             return self.call_builtin(st, cls, args, kwargs, line)
         import collections
+        if issubclass(cls, tuple) and hasattr(cls, '_fields'):
+            # collections.namedtuple: an immutable tuple whose items can also be read by field name
+            fields = tuple(cls._fields)
+            items = list(args)
+            for fname in fields[len(items):]:
+                if fname not in kwargs:
+                    raise EngineError('namedtuple %s: missing field %s' % (cls.__name__, fname))
+                items.append(kwargs[fname])
+            if len(items) != len(fields):
+                raise EngineError('namedtuple %s: wrong number of fields' % cls.__name__)
+            return PyTuple(items, fields=fields)
         if cls is collections.OrderedDict and not args:
             return self.new_dict(st, UNIVERSE.classes[UNIVERSE.register(collections.OrderedDict) - 1])
         if cls not in UNIVERSE.ids:
             raise EngineError('instantiation of unregistered class %r' % (cls,))
         q = '%s.%s' % (cls.__module__, cls.__qualname__)
         mode = self.registry.mode_for(q, self.cur_contract)
-        r = self.new_ref(st, cls)
-        obj = V(mkR(r), TypeSpec('obj', (cls,), exact=True))
+        if issubclass(cls, dict):
+            # a dict subclass (e.g. GtkDocAnnotations): starts out as an empty mapping
+            dv = self.new_dict(st, cls)
+            r = Val.r(dv.t)
+            obj = V(dv.t, TypeSpec('dict', (cls,), False, None, exact=True))
+        else:
+            r = self.new_ref(st, cls)
+            obj = V(mkR(r), TypeSpec('obj', (cls,), exact=True))
         init = None
         for k in cls.__mro__:
             if '__init__' in vars(k):
@@ -501,6 +530,9 @@ class CallMixin(object):
             return V(mkB(self.compare(st, opn, args[0], args[1])), parse_spec('bool'))
         if o is id:
             return V(mkI(Val.r(args[0].t)), parse_spec('int'))
+        import collections as _c
+        if o in (dict.__init__, _c.OrderedDict.__init__) and len(args) == 1 and not kwargs:
+            return self.lift(None)      # the base initialiser of an (already empty) mapping, without items
         q = getattr(o, '__module__', '?') or '?'
         name = '%s.%s' % (q, getattr(o, '__qualname__', getattr(o, '__name__', repr(o))))
         mode = self.registry.mode_for(name, self.cur_contract)
@@ -652,6 +684,14 @@ class CallMixin(object):
                 return self.pydict_get(st, o, args[0], args[1] if len(args) > 1 else None, line)
             if isinstance(o, dict) and name in ('items', 'keys', 'values'):
                 return self.lift(list(getattr(o, name)()))
+            if isinstance(o, dict) and name == 'pop' and args and self.const_str(args[0]) is not None:
+                k = self.const_str(args[0])
+                if k in o:
+                    return o.pop(k)
+                if len(args) > 1:
+                    return args[1]
+                self.raise_exit(st, KeyError, None, line)
+                return self.lift(None)
             if isinstance(o, str):
                 return self.str_method(st, self.lift(o), name, args, kwargs, line)
             import re as _re
@@ -788,6 +828,25 @@ class CallMixin(object):
             return res
         if name in ('items', 'keys', 'values'):
             return PyObj(('dictview', name, d))
+        if name == 'copy' and not args:
+            # a shallow copy: a new mapping object of the same class with the same contents; attributes of a
+            # subclass instance (set by its __init__ / __copy__) hold some value of their declared type
+            import collections
+            cls = h.classes[0] if h.classes else dict
+            nv = self.new_dict(st, cls)
+            nr = Val.r(nv.t)
+            st.heap['$DMAP'] = z3.Store(self.harr(st, '$DMAP'), nr, z3.Select(self.harr(st, '$DMAP'), r))
+            st.heap['$LEN'] = z3.Store(self.harr(st, '$LEN'), nr, self.list_len(st, r))
+            from .model import SCHEMA
+            for (kk, fname) in list(SCHEMA):
+                if kk in cls.__mro__:
+                    fs = field_spec((cls,), fname)
+                    fv = fresh('copied_' + fname)
+                    if fs is not None:
+                        self.assume(st, fs.assumption(fv))
+                    self.known_ref(st, fv)
+                    self.store(st, nr, fname, fv)
+            return V(nv.t, TypeSpec(h.kind, h.classes, False, h.elem, h.keyed, h.exact, h.region))
         if name == 'update':
             raise EngineError('dict.update')
         raise EngineError('dict method %s' % name)
@@ -814,7 +873,14 @@ class CallMixin(object):
                             'the appended value has the declared element type %r of the list' % (es,))
             n = self.list_len(st, r)
             el = self.harr(st, '$ELEM')
-            st.heap['$ELEM'] = z3.Store(el, r, z3.Store(z3.Select(el, r), self.list_off(st, r) + n, hv.t))
+            new_inner = z3.Store(z3.Select(el, r), self.list_off(st, r) + n, hv.t)
+            if hv.hint is not None and hv.hint.kind == 'str' and not hv.hint.opt:
+                # defining equation of ''.join at an append:  ''.join(L + [x]) == ''.join(L) + x
+                ujoin = self.get_uf('str_join', StrS, z3.ArraySort(IntS, Val), IntS, StrS)
+                e0 = z3.StringVal('')
+                self.assume(st, z3.Implies(self.list_off(st, r) == 0,
+                                           ujoin(e0, new_inner, n + 1) == z3.Concat(ujoin(e0, z3.Select(el, r), n), Val.s(hv.t))))
+            st.heap['$ELEM'] = z3.Store(el, r, new_inner)
             st.heap['$LEN'] = z3.Store(self.harr(st, '$LEN'), r, n + 1)
             return self.lift(None)
         if name == 'sort':
@@ -1090,8 +1156,11 @@ class CallMixin(object):
             uf = self.get_uf('str_join', StrS, z3.ArraySort(IntS, Val), IntS, StrS)
             self.trust('str.join over a symbolic list: uninterpreted function of (sep, elements, length)')
             r = Val.r(seq.t)
-            self.assume(st, self.list_off(st, r) == 0)     # join over windowed lists is not modelled
-            return V(mkS(uf(Val.s(sep.t), z3.Select(self.harr(st, '$ELEM'), r), self.list_len(st, r))), parse_spec('str'))
+            self.oblige(st, 'join.not_a_window@%d' % line, self.list_off(st, r) == 0,
+                        'str.join is modelled for lists that are not windows (slices / pop(0)) only')
+            res = uf(Val.s(sep.t), z3.Select(self.harr(st, '$ELEM'), r), self.list_len(st, r))
+            self.assume(st, z3.Implies(self.list_len(st, r) == 0, res == z3.StringVal('')))
+            return V(mkS(res), parse_spec('str'))
         if isinstance(seq, PyObj) and isinstance(seq.o, tuple) and seq.o and seq.o[0] == 'dictview':
             uf = self.get_uf('str_join_dict', StrS, DMapInner, StrS)
             self.trust('str.join over a dict view: uninterpreted function of (sep, dict contents)')
